@@ -1,6 +1,7 @@
 import MindsVerif.Lemmas.ParamsFill
 import MindsVerif.Lemmas.WalkLiftP
 import MindsVerif.Gen.Schema
+import MindsVerif.Props.C13   -- [review] for `reorder`, `walk_congr` (used by `C12_review_visits_reordered`)
 /-!
 # C12 — prepared statements bind placeholders in textual order
 
@@ -297,5 +298,28 @@ example : bindings P (fillParams σ P C okQ [10, 20, 30, 40]).out
 example : okTree σ (.mk (cid "Select") 0 0 [param "Select" "targets" 1,
     .mk (cid "BinaryOperation") (sid "Select" "where") 4 [ident "BinaryOperation" "args" 5, param "BinaryOperation" "args" 6]]) = true := by
   decide +kernel
+
+/-! ### [review] coverage for ordinary statements
+
+`C12_visits` needs `okTree σ q`, which fails for every statement with `SELECT … FROM …`, a JOIN or `UPDATE … SET … WHERE`
+(the walker's order deviations, see `Props/C13.lean`) — e.g. for `okQ` above.  The order in which the walker meets the
+placeholders is irrelevant for C12 (`C12_textual`, `C12_fill` sort / look up by identity), so coverage is stated on the
+re-ordered schema: both walks visit exactly the required nodes (each once, with the right flags). -/
+
+-- [review]
+open MindsVerif.Props.C13 (reorder walk_congr sameWalk_reorder) in
+theorem C12_review_visits_reordered (σ : Schema) (P C : Nat) (hP : (σ.row P).walk = []) (q : Node)
+    (hq : okTree (reorder σ) q = true) (values : List (Nat × Nat)) :
+    (walk σ (cbFind P) q []).log.map Visit.key = expected (reorder σ) q false false
+    ∧ (walk σ (cbFillMap P C values) q ()).log.map Visit.key = expected (reorder σ) q false false := by
+  have hP' : ((reorder σ).row P).walk = [] := by rw [sameWalk_reorder σ P]; exact hP
+  have h := C12_visits (reorder σ) P C hP' q hq values
+  rw [walk_congr (reorder σ) σ (sameWalk_reorder σ) (cbFind P) q [],
+      walk_congr (reorder σ) σ (sameWalk_reorder σ) (cbFillMap P C values) q ()] at h
+  exact h
+
+-- [review] `okQ` (sub-query in FROM) and `wUpdate` are outside `C12_visits` but inside the re-ordered version
+example : okTree σ okQ = false ∧ okTree (MindsVerif.Props.C13.reorder σ) okQ = true
+    ∧ okTree σ wUpdate = false ∧ okTree (MindsVerif.Props.C13.reorder σ) wUpdate = true := by decide +kernel
 
 end MindsVerif.Props.C12
